@@ -33,6 +33,9 @@ class _Raw(io.FileIO):
         if fs.dead:
             return len(b)
         data = bytes(b)
+        if fs.failing and len(data):
+            fs.begin("write-refused", self._vf_name, len(data))
+            raise type(fs.fault_exc)(*fs.fault_exc.args)
         k = fs.begin("write", self._vf_name, len(data))
         if fs.crash_at == (k, "before"):
             fs.die()
@@ -93,6 +96,10 @@ class CrashFS:
         # full, I/O error) - once; the process lives on, later operations (cleanup, finally blocks) run normally
         self.fault_exc = fault_exc
         self.fault_raised = False
+        # persistent=True: the condition does not go away (the disk STAYS full): from the failing operation on, every write to
+        # a watched file fails the same way (opening / truncating / renaming / removing still work - they need no space)
+        self.persistent = False
+        self.failing = False
         self.ops: list[tuple] = []
         self.dead = False
         self._saved = {}
@@ -113,6 +120,8 @@ class CrashFS:
         if self.fault_exc is not None:
             self.crash_at = None
             self.fault_raised = True
+            if self.persistent:
+                self.failing = True
             raise self.fault_exc
         self.dead = True
         raise Crash()
